@@ -290,6 +290,15 @@ fn class_of(c: &Case) -> String {
     format!("{:?}/straddle{}/{}/hole:{}/{}/{}", c.region, straddle(c.pgoff), if c.second_rx { "rx" } else { "rwx" }, h, fk, fl)
 }
 
+#[inline(never)]
+fn px_target() -> i32 {
+    std::hint::black_box(0x4F0)
+}
+#[inline(never)]
+fn px_fake() -> i32 {
+    std::hint::black_box(0x4F1)
+}
+
 pub fn run(ctx: &Ctx) {
     let cases = gen_cases(ctx);
     let lowest = hint_floor();
@@ -332,6 +341,101 @@ pub fn run(ctx: &Ctx) {
             _ => decided += 1,
         }
         out::outcome(idx, &class, v, &sig, &detail);
+    }
+    // --- process-level events between two installations: whatever the library remembers across installations
+    // (descriptors, addresses, page states) must survive them or be re-established
+    let sp = base_idx + async_cases.len() as u64;
+    let warm = || {
+        let mut i = InjectorPP::new();
+        i.when_called(injectorpp::func!(fn (px_target)() -> i32)).will_execute_raw(injectorpp::func!(fn (px_fake)() -> i32));
+        let v = px_target();
+        drop(i);
+        v == 0x4F1 && px_target() == 0x4F0
+    };
+    if ctx.mine(sp) {
+        let class = "process-events/fork-then-install-in-the-child".to_string();
+        out::intent(sp, &class, &J::new().s("crash_sig", "fork"));
+        let ok0 = warm();
+        let img0 = bytes_at(px_target as usize, 16);
+        let pid = unsafe { libc::fork() };
+        if pid == 0 {
+            // the child (single-threaded: this scenario starts no threads): its own installation must work here
+            let r = std::panic::catch_unwind(|| {
+                let mut i = InjectorPP::new();
+                i.when_called(injectorpp::func!(fn (px_target)() -> i32)).will_execute_raw(injectorpp::func!(fn (px_fake)() -> i32));
+                let v = px_target();
+                drop(i);
+                (v, px_target())
+            });
+            let code = match r {
+                Ok((0x4F1, 0x4F0)) => 0,
+                Ok((0x4F1, _)) => 5,
+                Ok(_) => 3,
+                Err(_) => 4,
+            };
+            unsafe { libc::_exit(code) };
+        }
+        let mut status = 0i32;
+        let wr = if pid > 0 { unsafe { libc::waitpid(pid, &mut status, 0) } } else { -1 };
+        let parent_same = bytes_at(px_target as usize, 16) == img0 && px_target() == 0x4F0;
+        let d = J::new().n("child_wait_status", status).b("parent_unchanged", parent_same);
+        if pid < 0 || wr < 0 || !ok0 {
+            out::outcome(sp, &class, Verdict::Inconclusive, "could-not-fork-or-warm-up", &d);
+        } else if !parent_same {
+            out::outcome(sp, &class, Verdict::Violated, "installation-in-a-forked-child-changed-the-parent", &d);
+        } else if libc::WIFEXITED(status) && libc::WEXITSTATUS(status) == 0 {
+            decided += 1;
+            out::outcome(sp, &class, Verdict::Held, "", &d);
+        } else {
+            let sig = if libc::WIFEXITED(status) { match libc::WEXITSTATUS(status) { 3 => "fake-not-in-effect-in-a-forked-child", 5 => "original-not-back-in-a-forked-child", _ => "installation-in-a-forked-child-panicked" } } else { "forked-child-crashed-while-faking" };
+            out::outcome(sp, &class, Verdict::Violated, sig, &d);
+        }
+    }
+    if ctx.mine(sp + 1) {
+        let class = "process-events/descriptors-closed-and-reused-between-installations".to_string();
+        out::intent(sp + 1, &class, &J::new().s("crash_sig", "fd-recycling"));
+        let ok0 = warm();
+        // what a daemonising or sandboxing test does: close every descriptor above stderr (except the case log),
+        // then open a few files, which re-uses the numbers
+        let mut closed = 0u64;
+        let keep = out::fd();
+        for fd in 3..256 {
+            if fd != keep && unsafe { libc::fcntl(fd, libc::F_GETFD) } >= 0 {
+                unsafe { libc::close(fd) };
+                closed += 1;
+            }
+        }
+        let devnull = std::ffi::CString::new("/dev/null").unwrap();
+        let opened: Vec<i32> = (0..8).map(|_| unsafe { libc::open(devnull.as_ptr(), libc::O_RDWR) }).collect();
+        let img0 = bytes_at(px_target as usize, 16);
+        let r = std::panic::catch_unwind(|| {
+            let mut i = InjectorPP::new();
+            i.when_called(injectorpp::func!(fn (px_target)() -> i32)).will_execute_raw(injectorpp::func!(fn (px_fake)() -> i32));
+            let v = px_target();
+            drop(i);
+            (v, px_target())
+        });
+        let same = bytes_at(px_target as usize, 16) == img0;
+        for fd in opened {
+            if fd >= 0 {
+                unsafe { libc::close(fd) };
+            }
+        }
+        let d = J::new().n("descriptors_closed", closed).s("second_installation", &format!("{:?}", r.as_ref().map_err(|_| "panicked")));
+        let sig = match r {
+            _ if !ok0 => "",
+            Ok((0x4F1, 0x4F0)) if same => "",
+            Ok((0x4F1, _)) => "original-not-back-after-descriptors-were-recycled",
+            Ok(_) => "fake-not-in-effect-after-descriptors-were-recycled",
+            Err(_) => "",
+        };
+        if !ok0 {
+            out::outcome(sp + 1, &class, Verdict::Inconclusive, "could-not-warm-up", &d);
+        } else {
+            decided += 1;
+            // (a loud refusal is what C01 allows)
+            out::outcome(sp + 1, &class, if sig.is_empty() { Verdict::Held } else { Verdict::Violated }, sig, &d);
+        }
     }
     let forms_j = forms.iter().fold(J::new(), |j, (k, v)| j.n(k, *v));
     out::summary(
